@@ -666,6 +666,8 @@ def gen_oids(ctx: Ctx):
             for x in ARCS:
                 out.append([[a, b, x], b""])
                 out.append([[a, b, x, 0, x], b"\x80"])
+    # one arc only: the range test on the first arc comes before the missing second arc is noticed
+    out += [[[a], b""] for a in (0, 2, 5, 39, 40, 50, 2 ** 32)]
     out += [[[], b""], [[1], b""], [[2, 40], b""], [[2, 47, 1], b""], [[2, 100, 3], b""], [[3, 0], b""], [[3, 8, 1], b""], [[39, 39, 1], b""], [[40, 0], b""],
             [[0, 40], b""], [[1, 2, -1], b""], [[-1, 2, 3], b""], [[1, -2, 3], b""], [[2, 39] + [2 ** 7] * 40, b""]]
     for _ in range(ctx.n(300, 6000)):
